@@ -118,6 +118,8 @@ func c05(c *Ctx) {
 
 	// ---- C05.1 every observation is recorded --------------------------------------------------------
 	c05RecordedKeysAreCopies(c)
+	c05SpecCopies(c)
+	c05FingerprintCoversTx(c)
 	r := "C05.1/reads-recorded"
 	c.recordingRule(r, c.mustFn(r, otxT+"GetWithFilters"), "snap.GetWithFilters", callTo(snapT+"GetWithFilters"), "mvccReadSet.expectedGets", "ErrKeyNotFound", ownWrite)
 	c.recordingRule(r, c.mustFn(r, otxT+"GetWithPrefixAndFilters"), "snap.GetWithPrefixAndFilters", callTo(snapT+"GetWithPrefixAndFilters"), "mvccReadSet.expectedGetsWithPrefix", "ErrKeyNotFound", ownWrite)
@@ -572,6 +574,113 @@ func isByteSlice(t types.Type) bool {
 	}
 	b, ok := sl.Elem().Underlying().(*types.Basic)
 	return ok && b.Kind() == types.Byte
+}
+
+// c05SpecCopies: a reader spec that is rebuilt field by field from another spec (the scan itself, and its replay at
+// commit time) copies every field from the field of the same name: the replay must walk exactly the range that
+// was observed.
+func c05SpecCopies(c *Ctx) {
+	r := "C05.2/replayed-spec-is-the-recorded-spec"
+	n := 0
+	for _, fn := range c.allFns {
+		if !fnInPkgs(fn, []string{"embedded/store"}) || len(fn.Blocks) == 0 {
+			continue
+		}
+		per := 0
+		allInstrs(fn, false, func(in ssa.Instruction) {
+			st, ok := in.(*ssa.Store)
+			if !ok {
+				return
+			}
+			fa, ok := st.Addr.(*ssa.FieldAddr)
+			if !ok || structName(fa.X.Type()) != "KeyReaderSpec" {
+				return
+			}
+			if _, isAlloc := fa.X.(*ssa.Alloc); !isAlloc {
+				return
+			}
+			ld, ok := st.Val.(*ssa.UnOp)
+			if !ok || ld.Op != token.MUL {
+				return
+			}
+			sfa, ok := ld.X.(*ssa.FieldAddr)
+			if !ok || structName(sfa.X.Type()) != "KeyReaderSpec" || sfa.X == fa.X {
+				return
+			}
+			n++
+			per++
+			dst, src := fieldName(fa.X.Type(), fa.Field), fieldName(sfa.X.Type(), sfa.Field)
+			c.check(dst == src, r, fmt.Sprintf("%s:%s#%d", fnName(fn), dst, per), c.pos(st.Pos()), dst+" copied from "+src, "field "+dst+" of the rebuilt reader spec is taken from field "+src+" of the recorded one: the range replayed at commit is not the range that was read")
+		})
+	}
+	if n < 10 {
+		c.undecided(r, "floor", fmt.Sprintf("%d field-by-field copies of a KeyReaderSpec found (12 confirmed by hand)", n))
+	}
+}
+
+// c05FingerprintCoversTx: the prefix fingerprint is a hash over (key length, key, tx id) of every entry under the
+// prefix; a version overwritten by another transaction changes only the tx id, so all eight bytes written by
+// PutUint64 (and all four of PutUint32) must go into the hash.
+func c05FingerprintCoversTx(c *Ctx) {
+	r := "C05.2/fingerprint-covers-what-was-encoded"
+	f := c.mustFn(r, "embedded/store.prefixFingerprint")
+	if f == nil {
+		return
+	}
+	n := 0
+	for _, b := range f.Blocks {
+		pending := int64(0) // width of the last PutUintN into the scratch buffer not yet hashed
+		var putPos ssa.Instruction
+		for _, in := range b.Instrs {
+			call, ok := in.(*ssa.Call)
+			if !ok {
+				continue
+			}
+			cn := calleeName(&call.Call)
+			switch {
+			case strings.HasSuffix(cn, "ndian).PutUint32"):
+				pending, putPos = 4, in
+			case strings.HasSuffix(cn, "ndian).PutUint64"):
+				pending, putPos = 8, in
+			case call.Call.IsInvoke() && call.Call.Method.Name() == "Write" && pending > 0:
+				arg := call.Call.Args[0]
+				w := int64(-1)
+				if sl, ok := arg.(*ssa.Slice); ok {
+					lo, hi := int64(0), int64(-1)
+					if sl.Low != nil {
+						lo, _ = constInt64(sl.Low)
+					}
+					if sl.High != nil {
+						hi, _ = constInt64(sl.High)
+					} else if pt, ok := sl.X.Type().Underlying().(*types.Pointer); ok {
+						if at, ok := pt.Elem().Underlying().(*types.Array); ok {
+							hi = at.Len()
+						}
+					}
+					if hi >= 0 {
+						w = hi - lo
+					}
+				}
+				n++
+				c.check(w == pending, r, fmt.Sprintf("%s:hashed-width#%d", fnName(f), n), c.pos(in.Pos()), fmt.Sprintf("%d bytes encoded, %d hashed", pending, w),
+					fmt.Sprintf("%d bytes were encoded at %s but %d go into the fingerprint: part of the value (the low bytes of the tx id) does not influence it", pending, c.pos(putPos.Pos()), w))
+				pending = 0
+			}
+		}
+	}
+	if n < 2 {
+		c.undecided(r, "floor", fmt.Sprintf("%d encode-then-hash pairs found in prefixFingerprint (2 confirmed by hand)", n))
+	}
+	// the tx id of every entry goes into it
+	okTx := false
+	allInstrs(f, false, func(in ssa.Instruction) {
+		if call, ok := in.(*ssa.Call); ok && strings.HasSuffix(calleeName(&call.Call), "ndian).PutUint64") {
+			if strings.Contains(desc(call.Call.Args[len(call.Call.Args)-1]), "ValueRef).Tx") {
+				okTx = true
+			}
+		}
+	})
+	c.check(okTx, r, fnName(f)+":tx-id-encoded", c.pos(f.Pos()), "the entry's tx id is encoded", "the fingerprint no longer includes the tx id of the entries: overwrites under the prefix do not change it")
 }
 
 func c05OwnWrites(c *Ctx, r string) {
